@@ -168,6 +168,17 @@ def run(ctx):
     mc = model(ctx)
     apa = apalache_quant(ctx) if ctx.prop in ("C06", "C07") else None
     st = ctx.record(spec["profile"])
+    if spec["profile"] == "depth":
+        # the first bit-depth calls of a process are made by several goroutines at once (lazily built tables would be
+        # raced there): a process gets one such shot, so the recorder is run in a few fresh processes
+        for k in range(3):
+            more = ctx.record("depth", outdir=os.path.join(ctx.work, "tr-depth-%d" % k))
+            st["files"] += more["files"]
+            st["traces"] += more["traces"]
+            st["events"] += more["events"]
+            st["cases"] += more["cases"]
+            for op, n in more["ops"].items():
+                st["ops"][op] = st["ops"].get(op, 0) + n
     ctx.note("recorded %s: %d scans, %d events %s" % (st["profile"], st["traces"], st["events"], st["ops"]))
     if st["extra"].get("capped_sweeps"):
         ctx.note("WARNING: %d exhaustive sweeps were capped (chaotic output)" % st["extra"]["capped_sweeps"])
